@@ -21,8 +21,16 @@ Inductive seg :=
 
 Definition sid_of (x : seg) : N := match x with SHello i _ _ _ => i | SData i => i end.
 
-(* events of the network thread's script *)
-Inductive nev := NAuth | NDisc | NSeg (x : seg).
+(* What on_auth puts into consonance's ClientConfig, i.e. the ClientPayload the client presents:
+   the account (profile.username), the passive flag (argument of the auth event) and the client
+   attributes on_auth reads from profile.config / YowsupEnv at that moment (pushname, mcc, mnc,
+   fdid as phone_id, platform, app version, os version, manufacturer, device, build number, locale,
+   short_connect), each as an opaque code. *)
+Record ccfg := mkCfg { c_user : N; c_passive : bool; c_attrs : list N }.
+
+(* events of the network thread's script.  An auth event carries the configuration in force when
+   it is emitted. *)
+Inductive nev := NAuth (c : ccfg) | NDisc | NSeg (x : seg).
 
 (* _flush_incoming_buffer *)
 Inductive fpc := FAcq | FSize | FMach | FGet | FRel.
@@ -35,7 +43,12 @@ Inductive hpc :=
 | HFinish (nrs : N) | HSetT (nrs : N) | HPersist (nrs : N) | HFlush (f : fpc)
 | HSetE | HEvent | HFailure | HDone | HCrashed.
 
-Record worker := mkW { w_att : N; w_rs : N; w_pc : hpc }.
+(* a handshake worker captures, at construction, the server key and the ClientConfig on_auth built *)
+Record worker := mkW { w_att : N; w_rs : N; w_cfg : ccfg; w_pc : hpc }.
+
+(* a payload-bearing handshake message written on a connection: (connection, 1 client hello | 2 client
+   finish, payload) *)
+Definition pentry := (N * N * ccfg)%type.
 
 (* what reaches the layers above / the profile, in global order *)
 Inductive ev :=
@@ -67,23 +80,27 @@ Record st := mkSt {
   log : list ev;
   edge : bool;                 (* config.edge_routing_info set *)
   conn : N;                    (* id of the current connection (incremented per auth event) *)
-  bound : list (N * N)         (* connection -> attempt whose client hello the server consumed first *)
+  bound : list (N * N);        (* connection -> attempt whose client hello the server consumed first *)
+  pcfg : ccfg;                 (* on_auth's local client_config (built from the event being handled) *)
+  pres : list pentry           (* payloads written towards the server, in order *)
 }.
 
-Definition set_ps p s := mkSt p (inq s) (lock s) (ctr s) (stored s) (lrs s) (npc_ s) (script s) (workers s) (gen s) (log s) (edge s) (conn s) (bound s).
-Definition set_inq q s := mkSt (ps s) q (lock s) (ctr s) (stored s) (lrs s) (npc_ s) (script s) (workers s) (gen s) (log s) (edge s) (conn s) (bound s).
-Definition set_lock l s := mkSt (ps s) (inq s) l (ctr s) (stored s) (lrs s) (npc_ s) (script s) (workers s) (gen s) (log s) (edge s) (conn s) (bound s).
-Definition set_ctr c s := mkSt (ps s) (inq s) (lock s) c (stored s) (lrs s) (npc_ s) (script s) (workers s) (gen s) (log s) (edge s) (conn s) (bound s).
-Definition set_stored r s := mkSt (ps s) (inq s) (lock s) (ctr s) r (lrs s) (npc_ s) (script s) (workers s) (gen s) (log s) (edge s) (conn s) (bound s).
-Definition set_lrs r s := mkSt (ps s) (inq s) (lock s) (ctr s) (stored s) r (npc_ s) (script s) (workers s) (gen s) (log s) (edge s) (conn s) (bound s).
-Definition set_npc n s := mkSt (ps s) (inq s) (lock s) (ctr s) (stored s) (lrs s) n (script s) (workers s) (gen s) (log s) (edge s) (conn s) (bound s).
-Definition set_script r s := mkSt (ps s) (inq s) (lock s) (ctr s) (stored s) (lrs s) (npc_ s) r (workers s) (gen s) (log s) (edge s) (conn s) (bound s).
-Definition set_workers w s := mkSt (ps s) (inq s) (lock s) (ctr s) (stored s) (lrs s) (npc_ s) (script s) w (gen s) (log s) (edge s) (conn s) (bound s).
-Definition set_gen g s := mkSt (ps s) (inq s) (lock s) (ctr s) (stored s) (lrs s) (npc_ s) (script s) (workers s) g (log s) (edge s) (conn s) (bound s).
-Definition add_log e s := mkSt (ps s) (inq s) (lock s) (ctr s) (stored s) (lrs s) (npc_ s) (script s) (workers s) (gen s) (log s ++ [e]) (edge s) (conn s) (bound s).
+Definition set_ps p s := mkSt p (inq s) (lock s) (ctr s) (stored s) (lrs s) (npc_ s) (script s) (workers s) (gen s) (log s) (edge s) (conn s) (bound s) (pcfg s) (pres s).
+Definition set_inq q s := mkSt (ps s) q (lock s) (ctr s) (stored s) (lrs s) (npc_ s) (script s) (workers s) (gen s) (log s) (edge s) (conn s) (bound s) (pcfg s) (pres s).
+Definition set_lock l s := mkSt (ps s) (inq s) l (ctr s) (stored s) (lrs s) (npc_ s) (script s) (workers s) (gen s) (log s) (edge s) (conn s) (bound s) (pcfg s) (pres s).
+Definition set_ctr c s := mkSt (ps s) (inq s) (lock s) c (stored s) (lrs s) (npc_ s) (script s) (workers s) (gen s) (log s) (edge s) (conn s) (bound s) (pcfg s) (pres s).
+Definition set_stored r s := mkSt (ps s) (inq s) (lock s) (ctr s) r (lrs s) (npc_ s) (script s) (workers s) (gen s) (log s) (edge s) (conn s) (bound s) (pcfg s) (pres s).
+Definition set_lrs r s := mkSt (ps s) (inq s) (lock s) (ctr s) (stored s) r (npc_ s) (script s) (workers s) (gen s) (log s) (edge s) (conn s) (bound s) (pcfg s) (pres s).
+Definition set_npc n s := mkSt (ps s) (inq s) (lock s) (ctr s) (stored s) (lrs s) n (script s) (workers s) (gen s) (log s) (edge s) (conn s) (bound s) (pcfg s) (pres s).
+Definition set_script r s := mkSt (ps s) (inq s) (lock s) (ctr s) (stored s) (lrs s) (npc_ s) r (workers s) (gen s) (log s) (edge s) (conn s) (bound s) (pcfg s) (pres s).
+Definition set_workers w s := mkSt (ps s) (inq s) (lock s) (ctr s) (stored s) (lrs s) (npc_ s) (script s) w (gen s) (log s) (edge s) (conn s) (bound s) (pcfg s) (pres s).
+Definition set_gen g s := mkSt (ps s) (inq s) (lock s) (ctr s) (stored s) (lrs s) (npc_ s) (script s) (workers s) g (log s) (edge s) (conn s) (bound s) (pcfg s) (pres s).
+Definition add_log e s := mkSt (ps s) (inq s) (lock s) (ctr s) (stored s) (lrs s) (npc_ s) (script s) (workers s) (gen s) (log s ++ [e]) (edge s) (conn s) (bound s) (pcfg s) (pres s).
 
-Definition set_conn c s := mkSt (ps s) (inq s) (lock s) (ctr s) (stored s) (lrs s) (npc_ s) (script s) (workers s) (gen s) (log s) (edge s) c (bound s).
-Definition set_bound b s := mkSt (ps s) (inq s) (lock s) (ctr s) (stored s) (lrs s) (npc_ s) (script s) (workers s) (gen s) (log s) (edge s) (conn s) b.
+Definition set_conn c s := mkSt (ps s) (inq s) (lock s) (ctr s) (stored s) (lrs s) (npc_ s) (script s) (workers s) (gen s) (log s) (edge s) c (bound s) (pcfg s) (pres s).
+Definition set_pcfg c s := mkSt (ps s) (inq s) (lock s) (ctr s) (stored s) (lrs s) (npc_ s) (script s) (workers s) (gen s) (log s) (edge s) (conn s) (bound s) c (pres s).
+Definition add_pres (e : pentry) s := mkSt (ps s) (inq s) (lock s) (ctr s) (stored s) (lrs s) (npc_ s) (script s) (workers s) (gen s) (log s) (edge s) (conn s) (bound s) (pcfg s) (pres s ++ [e]).
+Definition set_bound b s := mkSt (ps s) (inq s) (lock s) (ctr s) (stored s) (lrs s) (npc_ s) (script s) (workers s) (gen s) (log s) (edge s) (conn s) b (pcfg s) (pres s).
 
 Fixpoint lookup (c : N) (b : list (N * N)) : option N :=
   match b with
@@ -135,9 +152,10 @@ Definition nt_step (s : st) : option (list label * st) :=
   | NNext =>
       match script s with
       | [] => None
-      | NAuth :: r =>
-          if edge s then Some ([LDown 3], set_npc NAuthE2 (set_conn (conn s + 1) (set_script r s)))
-          else Some ([LDown 0], set_npc NAuthChk (set_lrs (stored s) (set_conn (conn s + 1) (set_script r s))))
+      | NAuth c :: r =>
+          (* the ClientConfig is built from THIS event's passive flag and the configuration in force now *)
+          if edge s then Some ([LDown 3], set_npc NAuthE2 (set_pcfg c (set_conn (conn s + 1) (set_script r s))))
+          else Some ([LDown 0], set_npc NAuthChk (set_lrs (stored s) (set_pcfg c (set_conn (conn s + 1) (set_script r s)))))
       | NDisc :: r => Some ([LSt PInit], set_ps PInit (set_script r s))
       | NSeg x :: r =>
           if arrival_ok s x
@@ -149,7 +167,7 @@ Definition nt_step (s : st) : option (list label * st) :=
   | NAuthChk => Some ([LChk (is_hs (ps s))], set_npc (if is_hs (ps s) then NNext else NSpawn) s)
   | NSpawn => Some ([LSpawn (gen s)],
                     set_npc NNext (set_gen (gen s + 1)
-                      (set_workers (mkW (gen s) (lrs s) HReset :: workers s) s)))
+                      (set_workers (mkW (gen s) (lrs s) (pcfg s) HReset :: workers s) s)))
   | NChk => Some ([LChk (is_hs (ps s))], set_npc (if is_hs (ps s) then NNext else NFl FAcq) s)
   | NFl f =>
       match flush_step 0 f s with
@@ -177,6 +195,9 @@ Definition verify (b : list (N * N)) (w : worker) (x : seg) : option (N * bool) 
   | SData _ => None
   end.
 
+Definition hello_pres (w : worker) (s : st) : st :=
+  if (w_rs w =? 0)%N then s else add_pres (conn s, 1%N, w_cfg w) s.
+
 Definition hs_step (s : st) (w : worker) : option (list label * st * hpc) :=
   match w_pc w with
   | HReset => Some ([LSt PInit], set_ps PInit s, HStart)
@@ -185,10 +206,12 @@ Definition hs_step (s : st) (w : worker) : option (list label * st * hpc) :=
               | _ => Some ([LCrash], s, HCrashed)
               end
   | HHello => Some ([LDown 1],
-                    match lookup (conn s) (bound s) with
-                    | None => set_bound ((conn s, w_att w) :: bound s) s
-                    | Some _ => s
-                    end, HGet)
+                    (* IK client hello (a server key was captured): carries the encrypted ClientPayload *)
+                    hello_pres w
+                      match lookup (conn s) (bound s) with
+                      | None => set_bound ((conn s, w_att w) :: bound s) s
+                      | Some _ => s
+                      end, HGet)
   | HGet => match inq s with
             | [] => None
             | x :: q => Some ([LGet (sid_of x)], set_inq q s,
@@ -198,7 +221,7 @@ Definition hs_step (s : st) (w : worker) : option (list label * st * hpc) :=
                               | None => HSetE
                               end)
             end
-  | HFinish nrs => Some ([LDown 2], s, HSetT nrs)
+  | HFinish nrs => Some ([LDown 2], add_pres (conn s, 2%N, w_cfg w) s, HSetT nrs)   (* XX / XXfallback: payload in the client finish *)
   | HSetT nrs => if is_hs (ps s)
                  then Some ([LSt PTr],
                             (* _on_protocol_state_changed: config.server_static_public := rs happens here,
@@ -232,7 +255,7 @@ Fixpoint find_w (a : N) (ws : list worker) : option worker :=
 Fixpoint upd_w (a : N) (p : hpc) (ws : list worker) : list worker :=
   match ws with
   | [] => []
-  | w :: r => if (w_att w =? a)%N then mkW (w_att w) (w_rs w) p :: r else w :: upd_w a p r
+  | w :: r => if (w_att w =? a)%N then mkW (w_att w) (w_rs w) (w_cfg w) p :: r else w :: upd_w a p r
   end.
 
 Definition step (s : st) (tid : N) : option (list label * st) :=
@@ -303,11 +326,45 @@ Definition stuck (s : st) : bool := negb (all_done s) && forallb (fun t => negb 
 (* ---- the scenarios the theorems speak about ----
    A layer in any quiescent condition (protocol state p0 <> handshake; any stored server key; any
    number of earlier handshake workers, all terminated; queues empty; lock free), then one login
-   attempt: auth event, server hello answering this attempt, then any number of transport segments. *)
+   attempt: auth event, server hello answering this attempt, then any number of transport segments.
+   pc0 = whatever an earlier on_auth left in its local, pres0 = whatever was presented on earlier
+   connections, cfg = the configuration carried by THIS auth event. *)
 Definition old_ok (g : N) (w : worker) : Prop := w_finished w = true /\ (w_att w < g)%N.
 
 Definition start (p0 : pst) (c0 stored0 lrs0 g0 : N) (ws0 : list worker) (e : bool)
-                 (cn0 : N) (b0 : list (N * N)) (hello : seg) (data : list seg) : st :=
-  mkSt p0 [] None c0 stored0 lrs0 NNext (NAuth :: NSeg hello :: map NSeg data) ws0 g0 [] e cn0 b0.
+                 (cn0 : N) (b0 : list (N * N)) (pc0 : ccfg) (pres0 : list pentry) (cfg : ccfg)
+                 (hello : seg) (data : list seg) : st :=
+  mkSt p0 [] None c0 stored0 lrs0 NNext (NAuth cfg :: NSeg hello :: map NSeg data) ws0 g0 [] e cn0 b0 pc0 pres0.
 
 Definition negotiated (stored0 static : N) : N := if (static =? 0)%N then stored0 else static.
+
+(* ---- a model VARIANT, not the code: on_auth keeps the ClientConfig it built and rebuilds it only
+   when the account (username) changes.  It behaves like the model above run on a script in which
+   every auth event carries the cached configuration.  Used only by the *_refuted witness. *)
+Fixpoint cache_script (cache : option ccfg) (scr : list nev) : list nev :=
+  match scr with
+  | [] => []
+  | NAuth c :: r =>
+      let c' := match cache with
+                | Some k => if (c_user k =? c_user c)%N then k else c
+                | None => c
+                end in
+      NAuth c' :: cache_script (Some c') r
+  | x :: r => x :: cache_script cache r
+  end.
+
+Definition cached_variant (s : st) : st := set_script (cache_script None (script s)) s.
+
+(* a schedule that always runs the oldest enabled handshake worker, the network thread only when no
+   worker can move (so the network thread never cuts a live attempt off) *)
+Fixpoint auto_sched (fuel : nat) (s : st) : list N :=
+  match fuel with
+  | O => []
+  | S k => match filter (enabled s) (rev (tids s)) with
+           | [] => []
+           | t :: _ => match step s t with
+                       | Some (_, s') => t :: auto_sched k s'
+                       | None => []
+                       end
+           end
+  end.
